@@ -149,12 +149,35 @@ def _census(transports=()):
     return out
 
 
+def _containers():
+    """sizes of every list / dict / set / deque bound to a module global or a class attribute of the semantiva package
+    (process-wide registries, histories, caches); for a dict also the total size of its container values"""
+    import collections
+    out = {}
+    for mn, m in list(sys.modules.items()):
+        if not mn.startswith("semantiva") or m is None:
+            continue
+        for an, v in list(vars(m).items()):
+            objs = [(mn + "." + an, v)]
+            if isinstance(v, type) and getattr(v, "__module__", "") == mn:
+                objs = [(mn + "." + an + "." + a2, v2) for a2, v2 in list(vars(v).items())]
+            for name, o in objs:
+                if isinstance(o, (list, dict, set, collections.deque)):
+                    out[name] = len(o)
+                    if isinstance(o, dict):
+                        out[name + "[*]"] = sum(len(x) for x in o.values() if isinstance(x, (list, dict, set, collections.deque)))
+    return out
+
+
+ACCOUNTED_CONTAINERS = ("semantiva.core.semantiva_component._COMPONENT_REGISTRY[*]",)     # the registry count (F-C18-a)
+
+
 def sample(transport=None, jobtransport=None):
     gc.collect()
     reg = _registry()
     out = {"reg": {k: len(v) for k, v in reg.items()}, "total": sum(len(v) for v in reg.values()),
            "live": _live(), "gc": len(gc.get_objects()), "inst": _instances(),
-           "census": _census([t for t in (transport, jobtransport) if t is not None])}
+           "census": _census([t for t in (transport, jobtransport) if t is not None]), "containers": _containers()}
     if transport is not None:
         qs = getattr(transport, "_queues", None)
         if qs is not None:
@@ -278,6 +301,10 @@ def measure(job):
             lg = Logger(level="CRITICAL", console_output=False)
             tr = InMemorySemantivaTransport()
             stop = threading.Event()
+            # the profile shipped with every job names an optional plug-in module that is not installed here (legal: the
+            # registry tolerates unimportable modules)
+            from semantiva.registry.processor_registry import ProcessorRegistry
+            ProcessorRegistry.register_modules(["verif_optional_plugin_not_installed"])
             wt = threading.Thread(target=worker_loop, args=(0, tr, SequentialSemantivaExecutor(), stop, lg, 0.002), daemon=True)
             res["start"] = sample(None, tr)
             wt.start()
@@ -357,6 +384,8 @@ def measure_master(points):
         for p in sorted(points):
             # succeeding jobs, jobs failing at run time, and jobs whose configuration the worker rejects (missing YAML file / not a list)
             kinds = [ok_cfg, bad_cfg, "no_such_pipeline_file.yaml", ok_cfg, {"not": "a list"}, bad_cfg]
+            for i in range(p - done):       # the API default: jobs enqueued without asking for a Future
+                orch.enqueue(ok_cfg if i % 2 == 0 else bad_cfg)
             futs = [orch.enqueue(kinds[(done + i) % len(kinds)], return_future=True) for i in range(p - done)]
             t0 = time.time()
             for f in futs:
@@ -376,6 +405,7 @@ def measure_master(points):
             time.sleep(0.5)         # let the master finish its iteration
             gc.collect()
             res["samples"][str(p)] = {"pending_futures": len(orch.pending_futures), "inst": _instances(), "census": _census([tr]),
+                                      "containers": _containers(), "master_attrs": {k: len(v) for k, v in vars(orch).items() if isinstance(v, (list, dict, set))},
                                       "log_filters": len(lg.logger.filters) if hasattr(lg, "logger") else None,
                                       "log_handlers": len(lg.logger.handlers) if hasattr(lg, "logger") else None}
     except Exception as ex:  # noqa
@@ -501,6 +531,14 @@ def master_oracle(ck, thorough):
             ck.fail_input("C18:live-object-growth:%s:queue-master" % tname, "live %s objects grow with the number of jobs handled by a long-lived "
                           "master and worker (succeeding, failing and rejected jobs): %d after %s jobs, %d after %s jobs"
                           % (tname, (sa.get("census") or {}).get(tname, 0), a, sb["census"][tname], b), dict(rep, samples=None))
+    for cname in sorted(sb.get("containers") or {}):
+        if cname not in ACCOUNTED_CONTAINERS and sb["containers"][cname] - (sa.get("containers") or {}).get(cname, 0) >= 3:
+            ck.fail_input("C18:process-wide-container-growth:%s:queue-master" % cname, "the process-wide container %s grows with the number of jobs: %d after %s, %d after %s"
+                          % (cname, (sa.get("containers") or {}).get(cname, 0), a, sb["containers"][cname], b), dict(rep, samples=None))
+    for cname in sorted(sb.get("master_attrs") or {}):
+        if sb["master_attrs"][cname] - (sa.get("master_attrs") or {}).get(cname, 0) >= 3:
+            ck.fail_input("C18:master-table-growth:%s" % cname, "the master's table %s grows with the number of completed jobs: %d after %s, %d after %s"
+                          % (cname, (sa.get("master_attrs") or {}).get(cname, 0), a, sb["master_attrs"][cname], b), dict(rep, samples=None))
     for fld in ("log_filters", "log_handlers"):
         if sa.get(fld) is not None and sb.get(fld) is not None and sb[fld] > sa[fld]:
             ck.fail_input("C18:logger-%s-growth:queue-master" % fld[4:], "the process-wide logger's %s grow with the number of jobs: %d after %s jobs, %d after %s"
@@ -736,6 +774,15 @@ def oracle(ck, case, r, reported):
                     found.append(("C18:live-instance-growth:%s:%s" % (cat, WAY_SIG[way]),
                                   "live %s instances grow with the number of runs (%s): %d after run %d, %d after run %d"
                                   % (cat, WAY_SIG[way], ia[cat], a, ib[cat], b)))
+        ka, kb = smp[a].get("containers"), smp[b].get("containers")
+        if ka is not None and kb is not None:
+            for cname in sorted(kb):
+                if cname in ACCOUNTED_CONTAINERS:
+                    continue
+                if kb[cname] - ka.get(cname, 0) >= max(3, (b - a) // 4):
+                    found.append(("C18:process-wide-container-growth:%s:%s" % (cname, WAY_SIG[way]),
+                                  "the process-wide container %s grows with the number of runs (%s): %d entries after run %d, %d after run %d"
+                                  % (cname, WAY_SIG[way], ka.get(cname, 0), a, kb[cname], b)))
         ca, cb = smp[a].get("census"), smp[b].get("census")
         if ca is not None and cb is not None:
             for tname in sorted(cb):
@@ -769,6 +816,7 @@ def run(ck):
     if isinstance(ck.notes["queue_master"], dict):
         for smp_ in (ck.notes["queue_master"].get("samples") or {}).values():
             smp_.pop("census", None)          # large; the oracle has judged it
+            smp_.pop("containers", None)
     ck.notes["repeated_launches"] = launches_oracle(ck, thorough)
     facts = None
     try:
